@@ -21,7 +21,7 @@ def run(ctx):
     b = ctx.go_build(".", ov, name="main_c13")
     env = {}
     if ctx.replay:
-        env = {"VERIF_C13_FILE": ctx.replay["obs"]["file"], "VERIF_C13_CUT": str(ctx.replay["obs"]["cut"])}
+        env = {"VERIF_C13_FILE": ctx.replay["observation"]["file"], "VERIF_C13_CUT": str(ctx.replay["observation"]["cut"])}
     obs = ctx.go_run(b, "^TestVerifC13$", env=env, timeout_s=3400)
     if not obs:
         raise Inconclusive("no observations")
